@@ -86,6 +86,7 @@ class Contract:
     def __init__(self, target, params, requires=None, modifies=None, cases=None, props=(), trusted=False,
                  defaults=None, note="", selfcls=None, allocates=False, ghost_update=None, time=None, probes=None, linearize_at_lock=False):
         self.linearize_at_lock = linearize_at_lock  # pre-state of the post = state at the first monitor-lock acquisition
+        self.reads_under = None  # {(class, field): lockfield}: the function may read that field of an object only while holding the object's lock (check-then-act atomicity)
         self.at_call = None  # {callee target: (a, h_entry, callee_args, h_now) -> [(label, z3)]}: obligations at the moment the function calls that callee (publication order)
         self.closure = None  # nested functions: {free variable name: Ty} of the enclosing scope (symbolic, like parameters)
         self.ghost_init = None  # (a, h) -> {key: value}: ghost context of the executing code (e.g. which gateway records callback calls)
